@@ -362,6 +362,8 @@ class TestCmd:
                 op["sv"] = rng.choice(SV_KINDS)
             if rng.random() < 0.03:
                 op["date_and_pin"] = True
+            if rng.random() < 0.1:
+                op["verbose"] = rng.choice(["-v", "-vv"])    # must not change any outcome
             ops.append(op)
         return {"pattern": pat["pattern"], "epoch": epoch.isoformat(), "state": state, "ops": ops}
 
@@ -441,6 +443,8 @@ class TestCmd:
                 target = derive_target(op["sv"], tree, state, text)
                 if target is not None:
                     argv += ["--set-version", target]
+            if op.get("verbose"):
+                argv.append(op["verbose"])
             exp = expectation(ctx, tree, state, text, flags, clock, bool(use_date and flags.get("pin_date")))
             nviol = len(ctx.violations)
             res = invoker.invoke(d, argv, today)
